@@ -224,4 +224,140 @@ theorem v1_payload_starts_with_tag (v : Nat) (d : Bytes) (k : PubKey) (p : Bytes
     (Spec.blockV1 v d k p e).head? = some 0 := by
   simp [Spec.blockV1, Spec.tagBlockVersion]
 
+/-! ## the same, with lengths fixed by the algorithms instead of assumed for the block bytes
+
+    Keys have the length their algorithm fixes and ed25519 signatures are 64 bytes, so for two
+    parses of one payload the next-key, previous-signature and external-signature lengths agree;
+    the length of the block bytes then follows from the length of the payload. -/
+
+theorem le32_length (n : Nat) : (Gen.le32 n).length = 4 := by simp [Gen.le32]
+
+theorem blockV1_length (v : Nat) (d : Bytes) (k : PubKey) (p : Bytes) (e : Option Bytes) :
+    (Spec.blockV1 v d k p e).length =
+      62 + d.length + k.bytes.length + p.length + (match e with | some x => 13 + x.length | none => 0) := by
+  cases e <;>
+    simp [Spec.blockV1, Spec.tagBlockVersion, Spec.tagPayload, Spec.tagAlgorithm, Spec.tagNextKey,
+      Spec.tagPrevSig, Spec.tagExternalSig, le32_length] <;> omega
+
+/-- **version-1 block payloads bind every field** whenever the two next keys, the two previous
+    signatures and the two external signatures have pairwise equal lengths (no assumption on the
+    block bytes) -/
+theorem blockV1_injective_fixed (v v' : Nat) (d d' : Bytes) (k k' : PubKey) (p p' : Bytes) (e e' : Option Bytes)
+    (hv : v < 4294967296) (hv' : v' < 4294967296) (ha : k.alg < 4294967296) (ha' : k'.alg < 4294967296)
+    (hk : k.bytes.length = k'.bytes.length) (hp : p.length = p'.length)
+    (he : e.map List.length = e'.map List.length)
+    (h : Spec.blockV1 v d k p e = Spec.blockV1 v' d' k' p' e') :
+    v = v' ∧ d = d' ∧ k = k' ∧ p = p' ∧ e = e' := by
+  have hl := congrArg List.length h
+  rw [blockV1_length, blockV1_length] at hl
+  have hd : d.length = d'.length := by
+    cases e <;> cases e' <;> simp at he hl ⊢ <;> omega
+  exact blockV1_injective v v' d d' k k' p p' e e' hv hv' ha ha' hd hk hp h
+
+theorem authorityV1_injective (v v' : Nat) (d d' : Bytes) (k k' : PubKey)
+    (hv : v < 4294967296) (hv' : v' < 4294967296) (ha : k.alg < 4294967296) (ha' : k'.alg < 4294967296)
+    (hk : k.bytes.length = k'.bytes.length)
+    (h : Spec.authorityV1 v d k = Spec.authorityV1 v' d' k') : v = v' ∧ d = d' ∧ k = k' := by
+  have hl := congrArg List.length h
+  simp only [Spec.authorityV1, List.append_assoc] at h hl
+  have hd : d.length = d'.length := by
+    simp [Spec.tagBlockVersion, Spec.tagPayload, Spec.tagAlgorithm, Spec.tagNextKey, le32_length] at hl
+    omega
+  have h1 := List.append_inj h rfl
+  have h2 := List.append_inj h1.2 (by simp [Gen.le32])
+  have h3 := List.append_inj h2.2 rfl
+  have h4 := List.append_inj h3.2 hd
+  have h5 := List.append_inj h4.2 rfl
+  have h6 := List.append_inj h5.2 (by simp [Gen.le32])
+  have h7 := List.append_inj h6.2 rfl
+  refine ⟨le32_injective v v' hv hv' h2.1, h4.1, ?_⟩
+  have := le32_injective _ _ ha ha' h6.1
+  have hb := h7.2
+  cases k; cases k'; simp_all
+
+/-- the external (third-party) payload binds the block bytes and the previous signature -/
+theorem externalV1_injective (v v' : Nat) (d d' p p' : Bytes) (hv : v < 4294967296) (hv' : v' < 4294967296)
+    (hp : p.length = p'.length) (h : Spec.externalV1 v d p = Spec.externalV1 v' d' p') :
+    v = v' ∧ d = d' ∧ p = p' := by
+  have hl := congrArg List.length h
+  simp only [Spec.externalV1, List.append_assoc] at h hl
+  have hd : d.length = d'.length := by
+    simp [Spec.tagExternalVersion, Spec.tagPayload, Spec.tagPrevSig, le32_length] at hl
+    omega
+  have h1 := List.append_inj h rfl
+  have h2 := List.append_inj h1.2 (by simp [Gen.le32])
+  have h3 := List.append_inj h2.2 rfl
+  have h4 := List.append_inj h3.2 hd
+  have h5 := List.append_inj h4.2 rfl
+  exact ⟨le32_injective v v' hv hv' h2.1, h4.1, h5.2⟩
+
+/-- the seal payload binds the last block's bytes, next key and signature -/
+theorem sealed_injective (d d' : Bytes) (k k' : PubKey) (s s' : Bytes) (ha : k.alg < 4294967296) (ha' : k'.alg < 4294967296)
+    (hk : k.bytes.length = k'.bytes.length) (hs : s.length = s'.length)
+    (h : Spec.sealed d k s = Spec.sealed d' k' s') : d = d' ∧ k = k' ∧ s = s' := by
+  have hl := congrArg List.length h
+  simp only [Spec.sealed, List.append_assoc] at h hl
+  have hd : d.length = d'.length := by
+    simp [le32_length] at hl
+    omega
+  have h1 := List.append_inj h hd
+  have h2 := List.append_inj h1.2 (by simp [Gen.le32])
+  have h3 := List.append_inj h2.2 hk
+  refine ⟨h1.1, ?_, h3.2⟩
+  have := le32_injective _ _ ha ha' h2.1
+  have hb := h3.1
+  cases k; cases k'; simp_all
+
+/-! ## moving a block: a signature accepted anywhere is accepted only with the fields it was made for -/
+
+/-- an honest signature was made for one message (signatures of distinct messages do not collide) -/
+def SigBinds (honest : PubKey → Bytes → Bytes → Prop) : Prop :=
+  ∀ pk m m' s, honest pk m s → honest pk m' s → m = m'
+
+/-- `b` is a version-1 block whose fields have the lengths `b₀`'s have -/
+def SameShape (b b₀ : SBlock) (prev prev₀ : Bytes) : Prop :=
+  b.nextKey.bytes.length = b₀.nextKey.bytes.length ∧ prev.length = prev₀.length ∧
+  (b.ext.map (·.sig.length)) = (b₀.ext.map (·.sig.length)) ∧
+  b.nextKey.alg < 4294967296 ∧ b₀.nextKey.alg < 4294967296
+
+/-- **Splicing, reordering and field changes are refused**: let the holder of a protected key
+    `pk` have signed the version-1 block `b₀` after previous signature `prev₀`, producing `s`.
+    If an accepted chain contains, at a position whose signer is `pk`, a version-1 block `b`
+    carrying that signature, then `b` has the block bytes, next key and external signature of
+    `b₀`, and the block before it carries the signature `prev₀` — the block cannot have been
+    moved to another position or another token, nor have any bound field changed. -/
+theorem spliced_block_refused (S : Scheme) (prot : PubKey → Prop) (honest : PubKey → Bytes → Bytes → Prop)
+    (hU : Unforgeable S prot honest) (hB : SigBinds honest)
+    (pk : PubKey) (hp : prot pk) (b₀ : SBlock) (prev₀ : Bytes)
+    (h0 : honest pk (Spec.blockV1 1 b₀.data b₀.nextKey prev₀ (b₀.ext.map (·.sig))) b₀.sig)
+    (b : SBlock) (prev : Bytes) (hv1 : b.version.getD 0 = 1) (hs : b.sig = b₀.sig)
+    (hshape : SameShape b b₀ prev prev₀)
+    (hacc : verifyBlock S pk prev b = true) :
+    b.data = b₀.data ∧ b.nextKey = b₀.nextKey ∧ prev = prev₀ ∧ b.ext.map (·.sig) = b₀.ext.map (·.sig) := by
+  simp only [verifyBlock] at hacc
+  have hpay := ((C02.payloads_eq_spec b prev).2.1 hv1).1
+  rw [hpay] at hacc
+  simp only [Bool.and_eq_true] at hacc
+  have hh := hU pk _ _ hp hacc.1
+  rw [hs] at hh
+  have heq := hB pk _ _ _ hh h0
+  obtain ⟨hk, hpl, hel, ha, ha'⟩ := hshape
+  have := blockV1_injective_fixed 1 1 b.data b₀.data b.nextKey b₀.nextKey prev prev₀ _ _
+    (by decide) (by decide) ha ha' hk hpl (by
+      cases h1 : b.ext <;> cases h2 : b₀.ext <;> simp [h1, h2] at hel ⊢
+      exact hel) heq
+  exact ⟨this.2.1, this.2.2.1, this.2.2.2.1, this.2.2.2.2⟩
+
+/-- the hypotheses are jointly satisfiable: in the toy scheme (whose signatures contain the
+    message) "verifies" is an honest-signature predicate that is unforgeable and binding, and
+    something is signed -/
+example : Unforgeable C02.toyScheme (fun _ => True) (fun pk m s => C02.toyScheme.verify pk m s = true) ∧
+    SigBinds (fun pk m s => C02.toyScheme.verify pk m s = true) ∧
+    C02.toyScheme.verify ⟨0, [2]⟩ [5, 6] [1, 5, 6] = true := by
+  refine ⟨fun _ _ _ _ h => h, ?_, by decide⟩
+  intro pk m m' s h h'
+  simp only [C02.toyScheme, beq_iff_eq] at h h'
+  rw [h] at h'
+  exact List.append_cancel_left h'
+
 end Biscuit.C01
